@@ -15,6 +15,8 @@ Fixpoint hx (s : string) : list Z :=
   | _ => []
   end.
 
+Definition hxs (l : list string) : list Z := flat_map hx l.
+
 Fixpoint list_eqb (a b : list Z) : bool :=
   match a, b with
   | [], [] => true
@@ -23,26 +25,32 @@ Fixpoint list_eqb (a b : list Z) : bool :=
   end.
 
 (* ---------------------------------------------------------------- payload descriptors (pattern code, length, seed) *)
-Definition lcg_next (x : Z) : Z := (x * 1103515245 + 12345) mod 2147483648.
+(* arithmetic by bit operations on N (Z.div / Z.modulo are two orders of magnitude slower under vm_compute) *)
+Definition lcg_next (x : N) : N := N.land (x * 1103515245 + 12345)%N 2147483647%N.      (* mod 2^31 *)
 
-Fixpoint gen_ramp (n : nat) (i : Z) : list Z :=
-  match n with O => [] | S k => (i mod 256) :: gen_ramp k (i + 1) end.
+Fixpoint gen_ramp (n : nat) (i : N) : list Z :=
+  match n with O => [] | S k => Z.of_N (N.land i 255) :: gen_ramp k (i + 1)%N end.
 
-Fixpoint gen_lcg (n : nat) (x : Z) : list Z :=
-  match n with O => [] | S k => let x' := lcg_next x in ((x' / 65536) mod 256) :: gen_lcg k x' end.
+Fixpoint gen_lcg (n : nat) (x : N) : list Z :=
+  match n with O => [] | S k => let x' := lcg_next x in Z.of_N (N.land (N.shiftr x' 16) 255) :: gen_lcg k x' end.
 
-Fixpoint gen_period (n : nat) (i k seed : Z) : list Z :=
-  match n with O => [] | S m => (((i mod k) * 37 + seed) mod 256) :: gen_period m (i + 1) k seed end.
+(* j = i mod k, kept as a running counter *)
+Fixpoint gen_period (n : nat) (j k seed : N) : list Z :=
+  match n with
+  | O => []
+  | S m => Z.of_N (N.land (j * 37 + seed)%N 255) :: gen_period m (if (j + 1 =? k)%N then 0%N else (j + 1)%N) k seed
+  end.
 
-(* 0 zero | 1 rep | 2 ramp | 3 lcg | 4 period | 5 half *)
+(* 0 zero | 1 rep | 2 ramp | 3 lcg | 4 period | 5 half;  seed >= 0 *)
 Definition gen_payload (pat len seed : Z) : list Z :=
   let n := Z.to_nat len in
+  let sd := Z.to_N seed in
   if pat =? 0 then repeat 0 n
-  else if pat =? 1 then repeat (seed mod 256) n
-  else if pat =? 2 then gen_ramp n seed
-  else if pat =? 3 then gen_lcg n (seed mod 2147483648)
-  else if pat =? 4 then gen_period n 0 (seed mod 61 + 2) seed
-  else let h := Z.to_nat (len / 2) in gen_lcg h (seed mod 2147483648) ++ repeat 0 (n - h).
+  else if pat =? 1 then repeat (Z.of_N (N.land sd 255)) n
+  else if pat =? 2 then gen_ramp n sd
+  else if pat =? 3 then gen_lcg n (N.land sd 2147483647)
+  else if pat =? 4 then gen_period n 0 (N.modulo sd 61 + 2)%N sd
+  else let h := Z.to_nat (len / 2) in gen_lcg h (N.land sd 2147483647) ++ repeat 0 (n - h).
 
 (* ---------------------------------------------------------------- compressor oracle for a single case:
    the model cannot run LZ4; Compress answers what the implementation produced for this payload (only its
@@ -59,7 +67,7 @@ Definition dec_obs : Type := (bool * Z * Z * N * N * Z * Z)%type.
 
 Definition obs_of (s : segment) (rest : list Z) : dec_obs :=
   (is_self_contained (seg_header s), uncompressed_len (seg_header s), compressed_len (seg_header s),
-   crc24 (seg_header s), seg_crc32 s, Z.of_nat (length (seg_data s)), Z.of_nat (length rest)).
+   crc24 (seg_header s), seg_crc32 s, Z.of_nat (List.length (seg_data s)), Z.of_nat (List.length rest)).
 
 Definition obs_eqb (a b : dec_obs) : bool :=
   let '(s1, u1, c1, h1, p1, l1, r1) := a in
@@ -76,7 +84,7 @@ Definition seg_case (comp sc : bool) (pat len seed : Z) (cp : option (list Z)) (
   | Err => false
   | Ok (bs, s) =>
       let hl := Z.to_nat (if comp then 8 else 6) in
-      let n := length bs in
+      let n := List.length bs in
       let transmitted := if comp then (if cplen <=? len then match cp with Some x => x | None => [] end else p) else p in
       Z.eqb (Z.of_nat n) total
       && list_eqb (firstn hl bs) head
